@@ -166,6 +166,10 @@ func ItemCollectionDeduplication(recCols ...*ItemCollection) ItemCollection {
 			} else {
 				continue
 			}
+			if len(testIt) == 0 {
+				// NOTE(marius): an entry without an id can't be told apart from the others, nor can it be addressed
+				continue
+			}
 			for _, it := range rec {
 				if testIt.Equals(it.GetID(), false) {
 					// mark the element for removal
